@@ -7,6 +7,7 @@ CONSTANTS
   Chunked = FALSE
   NoRangeLen = 4
   CodeDen <- Den2
+  Dims = 1
 VIEW View
 ACTION_CONSTRAINT Emit
 CHECK_DEADLOCK FALSE
